@@ -93,6 +93,10 @@ pub fn jobs(ctx: &Ctx) -> Vec<Job> {
             1 => Some(class),
             _ => Some(2),
         };
+        if mode.is_some() {
+            // ... and always in automatic mode as well
+            jobs.push(Job { fam: FAMS[4], class, mode: None, level: Some((level + 1) % 4), version: None, mask: rotate_mask(k + 1), len: payload.len(), payload: Some(payload.clone()), seed: mix(ctx.seed, k as u64 ^ 0xa), ..Default::default() });
+        }
         jobs.push(Job { fam: FAMS[4], class, mode, level: if i % 5 == 0 { None } else { Some(level) }, version: None, mask: rotate_mask(k), len: payload.len(), payload: Some(payload), seed: mix(ctx.seed, k as u64), ..Default::default() });
     }
     // crafted byte payloads (craft.rs): data area equal to mask patterns, uniform, stripes; per-block shapes
